@@ -2004,7 +2004,7 @@ static int bufr_get_desc_value ( BUFR_Message *bufr, BufrDescriptor *bd )
                else
                   val = ival;
                }
-            bufr_value_set_int32( bd->value, val );
+            bufr_value_set_int64( bd->value, val ); /* the value may be VALTYPE_INT64 */
             if (isdebug)
                {
                sprintf( errmsg, _("IVAL=%lld "), (long long)val );
